@@ -347,7 +347,7 @@ Proof.
   intros st s b st' o H. unfold step_set_params.
   destruct (negb (is_kind st KSpace s)); intros E; inversion E; subst; [exact H|].
   apply res_upd_cont.
-  - destruct (c_params (get_cont st s)); [apply res_discard_items|]; exact H.
+  - apply res_discard_items. exact H.
   - intros c x Hx. left. exact Hx.
 Qed.
 
